@@ -59,9 +59,17 @@ def showSCs (l : List SC) : String := if l.isEmpty then "-" else ",".intercalate
 def dumpStore (st : Store) : String :=
   "r:" ++ showSCs st.roots ++ " a:" ++ showSCs st.aas ++ " t:" ++ showSCs st.ats ++ " o:" ++ showSCs st.own
 
+def sortNats (l : List Nat) : List Nat := l.mergeSort (fun a b => decide (a ≤ b))
+
+def showPairs (l : List (Nat × Nat)) : String :=
+  if l.isEmpty then "-" else
+    ",".intercalate ((l.mergeSort (fun a b => decide (a.1 ≤ b.1))).map (fun p => toString p.1 ++ "@" ++ toString p.2))
+
+/-- the per-ticket bookkeeping is printed only for the per-ticket variant (sets / dicts in canonical order) -/
 def dumpSign (S : Station) : String :=
   "u:" ++ showNats S.unknownAts ++ " q:" ++ showNats S.requestedAts ++ " lf:" ++ toString S.lastFull ++
-    " ro:" ++ (if S.reqOwn then "1" else "0")
+    " ro:" ++ (if S.reqOwn then "1" else "0") ++
+    (if S.perTicket then " lo:" ++ showPairs S.lastOf ++ " ow:" ++ showNats (sortNats S.owed) else "")
 
 def dump (S : Station) : String := dumpStore S.store ++ " " ++ dumpSign S
 
@@ -103,6 +111,10 @@ def DState.signer? (d : DState) (s : String) : Option Signer :=
 
 def DState.msg? (d : DState) (t : List String) : Option Msg :=
   match t with
+  | [psid, gt, f1, f2, f3, f4, f5, inl, rc, sg, sf, sb, pl, sv] =>      -- … plus the id of the signature value
+    match d.msg? [psid, gt, f1, f2, f3, f4, f5, inl, rc, sg, sf, sb, pl], nat? sv with
+    | some m, some sv => some { m with sig := sv }
+    | _, _ => none
   | [psid, gt, f1, f2, f3, f4, f5, inl, rc, sg, sf, sb, pl] =>
     match nat? psid, optNat? gt, bool? f1, bool? f2, bool? f3, bool? f4, bool? f5 with
     | some psid, some gt, some f1, some f2, some f3, some f4, some f5 =>
@@ -149,8 +161,12 @@ def secStep (d : DState) (t : List String) : DState × String :=
     | none => (d, "bad-op")
   | ["new", k, hs] =>
     match nat? k, bool? hs with
-    | some k, some hs => (d.setStation k { hasSign := hs }, "ok")
+    | some k, some hs => (d.setStation k { hasSign := hs, perTicket := false }, "ok")   -- two tokens: sign service before C05-F2
     | _, _ => (d, "bad-op")
+  | ["new", k, hs, pt] =>       -- third token: per-ticket variant of the sign service (1 = repaired code)
+    match nat? k, bool? hs, bool? pt with
+    | some k, some hs, some pt => (d.setStation k { hasSign := hs, perTicket := pt }, "ok")
+    | _, _, _ => (d, "bad-op")
   | ["addroot", k, n, att] => storeOp d k n att (fun st s => .ok (st.addRoot cfg s))
   | ["addaa", k, n, att] => storeOp d k n att (fun st s => st.addAA cfg s)
   | ["addat", k, n, att] => storeOp d k n att (fun st s => st.addAT cfg s)
